@@ -73,6 +73,11 @@ type C10Case struct {
 
 var hookMomentKinds = []string{"before", "leave", "enter", "after"}
 
+// forcedError (VERIF_C10_FORCED_ERROR=1, off by default): also drive the forced move to ERROR
+// (Sm.SetState, as core/server.go:ControlEnvironment does when GO_ERROR cannot complete) after a
+// GO_ERROR that was cancelled while RUNNING, and judge it as "the run ended by error".
+var forcedError = os.Getenv("VERIF_C10_FORCED_ERROR") == "1"
+
 func momentsOfStep(ev, src, dst string) map[string]string {
 	return map[string]string{"before": "before_" + ev, "leave": "leave_" + src, "enter": "enter_" + dst, "after": "after_" + ev}
 }
@@ -196,6 +201,10 @@ func genC10(c *vlib.Ctx, idx int64) C10Case {
 				add(plainStep("GO_ERROR", state))
 			case p < 82:
 				add(failingStep(r, "GO_ERROR", state))
+				if forcedError && state == "RUNNING" {
+					// what core/server.go does when the GO_ERROR that follows a failed request fails too
+					add(Step{Op: "FORCE_ERROR", Src: state, Expect: "ERROR", Note: "forced"})
+				}
 			case p < 90:
 				add(teardownStep(r, state, true))
 			case p < 94:
@@ -334,6 +343,12 @@ func execC10(w *envlab.World, cs C10Case) (*c10Outcome, error) {
 		var derr error
 		if st.Op == "TEARDOWN" {
 			res.State, derr = seqTeardown(lab, st.Force)
+		} else if st.Op == "FORCE_ERROR" {
+			src := lab.Env.CurrentState()
+			lab.Add(envlab.Record{Kind: envlab.KTransBegin, Event: st.Op, Src: src, State: src})
+			lab.Env.Sm.SetState("ERROR")
+			res.State = lab.Env.CurrentState()
+			lab.Add(envlab.Record{Kind: envlab.KTransEnd, Event: st.Op, Src: src, State: res.State})
 		} else {
 			var body func() error
 			if st.FailBody {
@@ -633,6 +648,8 @@ func (o *c10Oracle) endOcc(r envlab.Record) {
 			b.phase, o.justEnded = "ended", "error"
 		case o.occ.Event == "DESTROY" && r.State == "DONE":
 			b.phase, o.justEnded = "ended", "teardown"
+		case o.occ.Event == "FORCE_ERROR" && r.State == "ERROR":
+			b.phase, o.justEnded = "ended", "forced-error"
 		case r.Err != "" && r.State == "RUNNING" && (o.occ.Event == "STOP_ACTIVITY" || o.occ.Event == "GO_ERROR"):
 			o.cnt["run_survived_failed_"+strings.ToLower(o.occ.Event)]++
 		}
@@ -644,6 +661,10 @@ func (o *c10Oracle) endOcc(r envlab.Record) {
 
 func (o *c10Oracle) quiescent(r envlab.Record) {
 	o.in(r, r.Snap, "quiescent")
+	if o.justEnded == "forced-error" && r.State != "DONE" {
+		// forced move to ERROR (optional workload): a teardown may still complete the bracket
+		return
+	}
 	if o.justEnded != "" && o.br != nil {
 		for _, k := range []string{vSOEOR, vEOEOR} {
 			if r.Snap[k] == "" {
